@@ -9,7 +9,7 @@ From ClapModel Require Import ParseProofs.Actions ParseProofs.Unparse ParseProof
                               ParseProofs.UnparseExamples.
 From ClapModel Require Import Base.Utf8 Lex.OsStrExtModel Lex.OsStrExtProofs ParseProofs.UnparseLift.
 From ClapModel Require Import ParseProofs.UnparseX ParseProofs.UnparseXProofs ParseProofs.UnparseXTree ParseProofs.UnparseXExamples.
-From ClapModel Require Import ParseProofs.Globals ParseProofs.UnparseGlobals ParseProofs.Spelling ParseProofs.UnparsePending.
+From ClapModel Require Import ParseProofs.Globals ParseProofs.UnparseGlobals ParseProofs.Spelling ParseProofs.UnparsePending ParseProofs.UnparseBridge.
 From Coq Require Import ZArith Sorting.Sorted Sorting.Permutation List.
 Import ListNotations.
 Open Scope N_scope.
@@ -693,3 +693,31 @@ Theorem C02_pending_nonvacuous :
   (exists e s, get_matches_with 2 PendOptEx.c [[45; 45; 109; 117]; [65]; [66]; [67]] ps_new = RErr e s /\ e_kind e = EUnknownArgument).
 Proof. exact PendOptEx.ex. Qed.
 Print Assumptions C02_pending_nonvacuous.
+
+(** (6) THE BRIDGE from the command as written to the class on the built command -- PARTIAL (ParseProofs/UnparseBridge.v).
+    Full statement (not proved): [forall c0, valid c0 = true -> conventional0 c0 = true ->
+    low_index_multiple (build_self c0) = false -> conv (build_self c0) = true].
+    Proved, for all commands: [Arg::_build] and the positional-index assignment keep the six per-argument conjuncts of
+    [conv] for every declared argument; the settings the class mentions are unchanged by the stages of [_build_self] before
+    the deprecated-settings push, and with [allow_hyphen_values]/[allow_negative_numbers]/[trailing_var_arg] off at command
+    level that push changes no argument.  Missing: the help/version arguments appended by [_check_help_and_version], the
+    [Built] mark, the low-index conjunct, and the assembly. *)
+Theorem C02_bridge_args_partial : forall args groups pc, forallb conv_arg args = true ->
+  forallb conv_arg (fst (build_args args groups pc)) = true.
+Proof. exact build_args_conv. Qed.
+Print Assumptions C02_bridge_args_partial.
+
+Theorem C02_bridge_deprecated_partial : forall c h a,
+  is_set s_allow_hyphen c = false -> is_set s_allow_negnum c = false -> is_set s_tva c = false ->
+  bs_deprecated_arg c h a = a.
+Proof. exact deprecated_conv. Qed.
+Print Assumptions C02_bridge_deprecated_partial.
+
+Theorem C02_bridge_settings_partial : forall c,
+  is_set s_allow_hyphen (pre_build c) = is_set s_allow_hyphen c /\
+  is_set s_allow_negnum (pre_build c) = is_set s_allow_negnum c /\
+  is_set s_tva (pre_build c) = is_set s_tva c /\
+  is_set s_sub_precedence (pre_build c) = is_set s_sub_precedence c /\
+  is_set s_allow_missing_pos (pre_build c) = is_set s_allow_missing_pos c.
+Proof. exact bridge_settings. Qed.
+Print Assumptions C02_bridge_settings_partial.
